@@ -32,6 +32,10 @@ type Out struct {
 	fails    int
 }
 
+// NewOut returns an Out writing oracle lines to w (used by state-aware generators that
+// drive a private engine instance and discard its output).
+func NewOut(w *bufio.Writer) *Out { return &Out{w: w, Stats: map[string]int{}} }
+
 func (o *Out) Fail(prop, clause, detail string) {
 	o.fails++
 	fmt.Fprintf(o.w, "ORACLE FAIL %s %s case=%s %s\n", prop, clause, o.caseName, detail)
